@@ -1,7 +1,7 @@
 // ---- event::process: vocabulary (spliced into `mod event`) -------------------------------------------
 use crate::parser::{fp_ok, has_fp, fp_of, start_at, is_start};
 use crate::output::{Output, Step, tok_sum, output_shape};
-use crate::parser::{toks_ok, ev_sum, tok_n, is_token};
+use crate::parser::{toks_ok, ev_sum, tok_n, is_token, bal, real_n, fin_n, is_real, lemma_bal_update};
 use std::mem;
 // assumed-dep (std): mem::replace stores the new value and returns the old one
 pub assume_specification<T> [std::mem::replace] (dest: &mut T, src: T) -> (r: T)
@@ -68,3 +68,20 @@ pub proof fn lemma_tok_sum_b(st: Seq<Step<'_>>)
 }
 /// the first event is the Start of a real (non-tombstone) node
 pub open spec fn root_first(ev: Seq<Event>) -> bool { ev.len() > 0 && (ev[0] matches Event::Start { kind, .. } && kind != SyntaxKind::TOMBSTONE) }
+/// Enter steps minus Exit steps
+pub open spec fn sbal(st: Seq<Step<'_>>) -> int
+    decreases st.len()
+{ if st.len() == 0 { 0 } else { sbal(st.drop_last()) + (if st.last() is Enter { 1int } else { 0 }) - (if st.last() is Exit { 1int } else { 0 }) } }
+/// kinds waiting in `forward_parents` that will become Enter steps
+pub open spec fn kinds_real(k: Seq<SyntaxKind>) -> int
+    decreases k.len()
+{ if k.len() == 0 { 0 } else { kinds_real(k.drop_last()) + (if k.last() != SyntaxKind::TOMBSTONE { 1int } else { 0 }) } }
+pub broadcast proof fn lemma_kinds_push(k: Seq<SyntaxKind>, a: SyntaxKind)
+    ensures #[trigger] k.push(a).drop_last() == k, k.push(a).last() == a,
+{ assert(k.push(a).drop_last() =~= k); }
+pub open spec fn tomb() -> Event { Event::Start { kind: SyntaxKind::TOMBSTONE, forward_parent: None } }
+pub proof fn lemma_bal_all_tomb(ev: Seq<Event>)
+    requires forall|j: int| 0 <= j < ev.len() ==> ev[j] == tomb(),
+    ensures bal(ev) == 0
+    decreases ev.len()
+{ if ev.len() > 0 { lemma_bal_all_tomb(ev.drop_last()); } }
